@@ -1,1 +1,820 @@
+/-
+Helper lemmas for the client model (`Model/Client.lean`), used by `Props/C08.lean` and `Props/C09.lean`.
+-/
 import Rscp.Model.Client
+import Rscp.Spec.WF
+namespace Rscp.Model
+open Rscp
+
+/-! ## request validation -/
+
+theorem lookup_container : lookup 14 Gen.validateKind = some Kind.msgs := by decide
+
+mutual
+/-- The value is a Go value as far as its dynamic type goes: `Val.num k _` is used for the fixed-width
+    numeric kinds only (as `Base.lean` says), at every depth. `Val.num .msgs 0`, say, is a term of the
+    model to which no Go value corresponds: its `kind` is `.msgs`, so it passes `isValidValue` for
+    `Container` and then hits the unchecked type assertion of `validateMsg`. Implied by `Spec.ValOK`
+    (`goMsgs_of_ok` below). -/
+def GoVal : Val → Prop
+  | .num k _ => k.width ≠ none
+  | .msgs ms => GoMsgs ms
+  | _ => True
+def GoMsg : Msg → Prop
+  | .mk _ _ v => GoVal v
+def GoMsgs : List Msg → Prop
+  | [] => True
+  | m :: ms => GoMsg m ∧ GoMsgs ms
+end
+
+theorem isValidValue_container {v : Val} (hv : GoVal v) (h : isValidValue Gen.C.Container v = true) :
+    ∃ ms, v = .msgs ms := by
+  simp only [isValidValue, show Gen.C.Container = 14 from rfl, lookup_container] at h
+  cases v <;> simp_all [Val.kind, GoVal]
+  next k n => subst h; simp [Kind.width] at hv
+
+mutual
+theorem validateMsg_ne_panic : ∀ m, GoMsg m → validateMsg m ≠ .panic
+  | .mk t dt v, h => by
+    cases v with
+    | msgs ms =>
+      have ih := validateMsgs_ne_panic ms (by simpa [GoMsg, GoVal] using h)
+      simp only [validateMsg]
+      split; · simp
+      split; · simp
+      split; · exact ih
+      simp
+    | _ =>
+      simp only [validateMsg]
+      split; · simp
+      split; · simp
+      split
+      · next h1 _ h3 =>
+        subst h3
+        obtain ⟨ms, hms⟩ := isValidValue_container h (by simpa using h1)
+        simp at hms
+      · simp
+theorem validateMsgs_ne_panic : ∀ ms, GoMsgs ms → validateMsgs ms ≠ .panic
+  | [], _ => by simp [validateMsgs]
+  | m :: ms, h => by
+    have h1 := validateMsg_ne_panic m h.1
+    have h2 := validateMsgs_ne_panic ms h.2
+    simp only [validateMsgs]
+    split <;> simp_all
+end
+
+/-- the error classes request validation can return -/
+def ValidationErr (e : ErrClass) : Prop := e = .typeMismatch ∨ e = .dataLimit ∨ e = .notARequest
+
+mutual
+theorem validateMsg_err : ∀ m e, validateMsg m = .err e → ValidationErr e
+  | .mk t dt v, e, h => by
+    cases v with
+    | msgs ms =>
+      simp only [validateMsg] at h
+      split at h; · simp at h; simp [ValidationErr, ← h]
+      split at h; · simp at h; simp [ValidationErr, ← h]
+      split at h; · exact validateMsgs_err ms e h
+      simp at h
+    | _ =>
+      simp only [validateMsg] at h
+      split at h; · simp at h; simp [ValidationErr, ← h]
+      split at h; · simp at h; simp [ValidationErr, ← h]
+      split at h <;> simp at h
+theorem validateMsgs_err : ∀ ms e, validateMsgs ms = .err e → ValidationErr e
+  | [], e, h => by simp [validateMsgs] at h
+  | m :: ms, e, h => by
+    simp only [validateMsgs] at h
+    split at h
+    · exact validateMsgs_err ms e h
+    · next e' h' => simp at h; subst h; exact validateMsg_err m _ h'
+    · simp at h
+end
+
+theorem validateRequests_go_err : ∀ ms e, validateRequests.go ms = .err e → ValidationErr e
+  | [], e, h => by simp [validateRequests.go] at h
+  | m :: ms, e, h => by
+    simp only [validateRequests.go] at h
+    split at h
+    · simp at h; simp [ValidationErr, ← h]
+    · split at h
+      · exact validateRequests_go_err ms e h
+      · next e' h' => simp at h; subst h; exact validateMsg_err m _ h'
+      · simp at h
+
+theorem validateRequests_err {ms e} (h : validateRequests ms = .err e) : ValidationErr e := by
+  simp only [validateRequests] at h
+  split at h
+  · split at h
+    · simp at h; simp [ValidationErr, ← h]
+    · simp at h
+  · next r hr => exact validateRequests_go_err ms e h
+
+theorem tagReqAuth_eq : tagReqAuth = 1 := by decide +kernel
+theorem tagAuthUser_eq : tagAuthUser = 2 := by decide +kernel
+theorem tagAuthPassword_eq : tagAuthPassword = 3 := by decide +kernel
+theorem tagAuth_eq : tagAuth = 8388609 := by decide +kernel
+
+theorem lookup_cstring : lookup 13 Gen.validateKind = some Kind.str := by decide
+theorem dtLength_container : dtLength 14 = 0 := by decide
+theorem dtLength_cstring : dtLength 13 = 0 := by decide
+
+/-- the authentication request is valid exactly when the credentials fit the item size limit -/
+theorem validateRequests_authRequest (u p : List Byte) :
+    validateRequests (authRequest u p) =
+      if u.length + p.length + 14 > 65528 then .err .dataLimit else .ok () := by
+  have h1 : Gen.Leaf.isRequest 1 = true := by decide
+  have hc : Gen.C.Container = 14 := rfl
+  have hs : Gen.C.CString = 13 := rfl
+  have hne : (13 : Nat) ≠ 14 := by decide
+  simp only [validateRequests, validateRequests.go, authRequest, tagReqAuth_eq, Msg.tag, h1,
+    validateMsg, validateMsgs, isValidValue, lookup_container, lookup_cstring, Val.kind,
+    valueSizeWide, msgsSizeWide, msgSizeWide, dtLength_container, dtLength_cstring,
+    Gen.Leaf.size_isVariable, Gen.Leaf.validate_tooLong, Gen.Leaf.validateRequests_tooLong,
+    Gen.C.RSCP_DATA_HEADER_SIZE, hc, hs]
+  simp
+  by_cases h : 65528 < u.length + p.length + 14
+  · have h' : 65528 < 7 + u.length + (7 + p.length) := by omega
+    simp [h, h']
+  · have a1 : ¬ 65528 < 7 + u.length + (7 + p.length) := by omega
+    have a2 : ¬ 65528 < u.length := by omega
+    have a3 : ¬ 65528 < p.length := by omega
+    have a4 : ¬ 65535 < 7 + (7 + u.length + (7 + p.length)) := by omega
+    simp [h, a1, a2, a3, a4]
+
+theorem validateRequests_go_ne_panic : ∀ ms, GoMsgs ms → validateRequests.go ms ≠ .panic
+  | [], _ => by simp [validateRequests.go]
+  | m :: ms, h => by
+    have h1 := validateMsg_ne_panic m h.1
+    have h2 := validateRequests_go_ne_panic ms h.2
+    simp only [validateRequests.go]
+    split; · simp
+    split <;> simp_all
+
+theorem validateRequests_ne_panic {ms : List Msg} (h : GoMsgs ms) : validateRequests ms ≠ .panic := by
+  have h1 := validateRequests_go_ne_panic ms h
+  simp only [validateRequests]
+  split
+  · split <;> simp
+  · exact h1
+
+theorem validateRequests_authRequest_ne_panic (u p : List Byte) :
+    validateRequests (authRequest u p) ≠ .panic := by
+  rw [validateRequests_authRequest]; split <;> simp
+
+/-- values a Go program can hold (`Spec.ValOK`) are in particular `GoVal` -/
+theorem kind_inRange_width {k : Kind} {n : Int} (h : k.inRange n) : k.width ≠ none := by
+  intro hw; simp [Kind.inRange, hw] at h
+
+mutual
+theorem goMsg_of_ok : ∀ m, Spec.MsgOK m → GoMsg m
+  | .mk t dt v, h => by
+    cases v with
+    | msgs ms => exact goMsgs_of_ok ms (by simpa [Spec.MsgOK, Spec.ValOK] using h.2.2)
+    | num k n => exact kind_inRange_width (by simpa [Spec.MsgOK, Spec.ValOK] using h.2.2)
+    | _ => simp [GoMsg, GoVal]
+theorem goMsgs_of_ok : ∀ ms, Spec.MsgsOK ms → GoMsgs ms
+  | [], _ => trivial
+  | m :: ms, h => ⟨goMsg_of_ok m h.1, goMsgs_of_ok ms h.2⟩
+end
+
+/-! ## the client's primitives -/
+
+theorem disconnect_some (n : Nat) (q : List Tok) (a : Bool) (c : Nat) :
+    disconnect ⟨some (n, q), a, c⟩ = (⟨none, false, c⟩, [.closed n]) := rfl
+
+theorem disconnect_none (a : Bool) (c : Nat) :
+    disconnect ⟨none, a, c⟩ = (⟨none, false, c⟩, []) := rfl
+
+/-- a reply that starts with a frame token is a frame reply and nothing follows it -/
+theorem tokens_frame {r : Reply} {ms : List Msg} {rest : List Tok} (h : r.tokens = .frame ms :: rest) :
+    r = .frame ms ∧ rest = [] := by
+  cases r <;> simp_all [Reply.tokens]
+
+theorem receive_cases (n : Nat) (q : List Tok) (a : Bool) (c : Nat) :
+    (∃ m ms rest, q = .frame (m :: ms) :: rest ∧
+        receive ⟨some (n, q), a, c⟩ = (⟨some (n, rest), a, c⟩, .ok (m :: ms), [])) ∨
+    (∃ e, (∀ m ms rest, q ≠ .frame (m :: ms) :: rest) ∧
+        receive ⟨some (n, q), a, c⟩ = (⟨none, false, c⟩, .err e, [.closed n])) := by
+  match q with
+  | .frame (m :: ms) :: rest => exact .inl ⟨m, ms, rest, rfl, rfl⟩
+  | .frame [] :: _ => exact .inr ⟨.io, by simp, rfl⟩
+  | .junk e :: _ => exact .inr ⟨e, by simp, rfl⟩
+  | [] => exact .inr ⟨.io, by simp, rfl⟩
+
+theorem receive_none (a : Bool) (c : Nat) : receive ⟨none, a, c⟩ = (⟨none, a, c⟩, .panic, []) := rfl
+
+theorem sendFrame_cases (n : Nat) (q : List Tok) (a : Bool) (c : Nat) (ms : List Msg) (w : Bool) (reply : Reply) :
+    (validateRequests ms = .ok () ∧ w = true ∧
+        sendFrame ⟨some (n, q), a, c⟩ ms w reply = (⟨some (n, q ++ reply.tokens), a, c⟩, .ok (), [.sent n ms])) ∨
+    (validateRequests ms = .ok () ∧ w = false ∧
+        sendFrame ⟨some (n, q), a, c⟩ ms w reply = (⟨none, false, c⟩, .err .io, [.closed n])) ∨
+    (∃ e, validateRequests ms = .err e ∧
+        sendFrame ⟨some (n, q), a, c⟩ ms w reply = (⟨some (n, q), a, c⟩, .err e, [])) ∨
+    (validateRequests ms = .panic ∧
+        sendFrame ⟨some (n, q), a, c⟩ ms w reply = (⟨some (n, q), a, c⟩, .panic, [])) := by
+  simp only [sendFrame]
+  cases hv : validateRequests ms with
+  | ok u => cases w <;> simp [disconnect]
+  | err e => simp
+  | panic => simp
+
+/-! ## the authentication verdict -/
+
+theorem authVerdict_total (m : Msg) (rest : List Msg) :
+    authVerdict (m :: rest) = .ok .grant ∨ authVerdict (m :: rest) = .ok .refuse := by
+  simp only [authVerdict]
+  split; · simp
+  split <;> (try split) <;> simp
+
+theorem authVerdict_grant_iff (m : Msg) (rest : List Msg) :
+    authVerdict (m :: rest) = .ok .grant ↔
+      m.tag = tagAuth ∧ ∃ v, v ≠ 0 ∧ (m.val = .num .u8 v ∨ m.val = .num .i32 v) := by
+  simp only [authVerdict, show Gen.C.AUTH_LEVEL_NO_AUTH = 0 from rfl]
+  by_cases ht : m.tag = tagAuth
+  · simp only [ht, ne_eq, not_true_eq_false, if_false, true_and]
+    split
+    · next v hv => simp [hv]
+    · next v hv => simp [hv]
+    · next h1 h2 =>
+      constructor
+      · simp
+      · rintro ⟨v, _, hv | hv⟩
+        · exact absurd hv (h2 v)
+        · exact absurd hv (h1 v)
+  · simp [ht]
+
+/-! ## `authenticate` -/
+
+/-- all outcomes of `authenticate` on an open connection -/
+theorem authenticate_cases (cred : Cred) (sc : Script) (n : Nat) (q : List Tok) (a : Bool) (c : Nat) :
+    (∃ e, ValidationErr e ∧ validateRequests (authRequest cred.user cred.password) = .err e ∧
+        authenticate cred ⟨some (n, q), a, c⟩ sc = (⟨some (n, q), a, c⟩, .err e, [])) ∨
+    (sc.writeOk = false ∧
+        authenticate cred ⟨some (n, q), a, c⟩ sc = (⟨none, false, c⟩, .err .io, [.closed n])) ∨
+    (∃ e, (∀ m ms rest, q ++ sc.auth.tokens ≠ .frame (m :: ms) :: rest) ∧
+        authenticate cred ⟨some (n, q), a, c⟩ sc =
+          (⟨none, false, c⟩, .err e, [.sent n (authRequest cred.user cred.password), .closed n])) ∨
+    (∃ m ms rest, q ++ sc.auth.tokens = .frame (m :: ms) :: rest ∧ authVerdict (m :: ms) = .ok .refuse ∧
+        authenticate cred ⟨some (n, q), a, c⟩ sc =
+          (⟨some (n, rest), false, c⟩, .err .auth, [.sent n (authRequest cred.user cred.password)])) ∨
+    (∃ m ms rest, q ++ sc.auth.tokens = .frame (m :: ms) :: rest ∧ authVerdict (m :: ms) = .ok .grant ∧
+        validateRequests (authRequest cred.user cred.password) = .ok () ∧ sc.writeOk = true ∧
+        authenticate cred ⟨some (n, q), a, c⟩ sc =
+          (⟨some (n, rest), true, c⟩, .ok (),
+            [.sent n (authRequest cred.user cred.password), .granted n])) := by
+  rcases sendFrame_cases n q a c (authRequest cred.user cred.password) sc.writeOk sc.auth with
+    ⟨hv, hw, hs⟩ | ⟨hv, hw, hs⟩ | ⟨e, hv, hs⟩ | ⟨hv, hs⟩
+  · rcases receive_cases n (q ++ sc.auth.tokens) a c with ⟨m, ms, rest, hq, hr⟩ | ⟨e, hq, hr⟩
+    · rcases authVerdict_total m ms with hg | hg
+      · refine .inr (.inr (.inr (.inr ⟨m, ms, rest, hq, hg, hv, hw, ?_⟩)))
+        simp [authenticate, hs, hr, hg]
+      · refine .inr (.inr (.inr (.inl ⟨m, ms, rest, hq, hg, ?_⟩)))
+        simp [authenticate, hs, hr, hg]
+    · refine .inr (.inr (.inl ⟨e, hq, ?_⟩))
+      simp [authenticate, hs, hr]
+  · exact .inr (.inl ⟨hw, by simp [authenticate, hs]⟩)
+  · exact .inl ⟨e, validateRequests_err hv, hv, by simp [authenticate, hs]⟩
+  · exact absurd hv (validateRequests_authRequest_ne_panic _ _)
+
+/-! ## `sendMultiple` -/
+
+/-- the last phase of `sendMultiple`: user request out, reply in -/
+def userPhase (st1 : CState) (reqs : List Msg) (sc : Script) : CState × Res (List Msg) × List Ev :=
+  match sendFrame st1 reqs sc.writeOk sc.user with
+  | (st2, .ok (), ev2) => ((receive st2).1, (receive st2).2.1, ev2 ++ (receive st2).2.2)
+  | (st2, .err e, ev2) => (st2, .err e, ev2)
+  | (st2, .panic, ev2) => (st2, .panic, ev2)
+
+/-- `sendMultiple` once the connection is there -/
+def connected (cred : Cred) (st0 : CState) (reqs : List Msg) (sc : Script) : CState × Res (List Msg) × List Ev :=
+  if st0.authed then userPhase st0 reqs sc
+  else match authenticate cred st0 sc with
+    | (st1, .ok (), ev1) =>
+      ((userPhase st1 reqs sc).1, (userPhase st1 reqs sc).2.1, ev1 ++ (userPhase st1 reqs sc).2.2)
+    | (st1, .err e, ev1) => (st1, .err e, ev1)
+    | (st1, .panic, ev1) => (st1, .panic, ev1)
+
+theorem sendMultiple_dial_fail (cred : Cred) (a : Bool) (c : Nat) (reqs : List Msg) (sc : Script)
+    (hd : sc.dialOk = false) :
+    sendMultiple cred ⟨none, a, c⟩ reqs sc = (⟨none, a, c⟩, .err .io, [.dial false]) := by
+  simp [sendMultiple, hd]
+
+theorem sendMultiple_aux (cred : Cred) (st0 : CState) (ev0 : List Ev) (reqs : List Msg) (sc : Script) :
+    (let (st1, r1, ev1) := if st0.authed then (st0, Res.ok (), []) else authenticate cred st0 sc
+     match r1 with
+     | .err e => (st1, .err e, ev0 ++ ev1)
+     | .panic => (st1, .panic, ev0 ++ ev1)
+     | .ok () =>
+       match sendFrame st1 reqs sc.writeOk sc.user with
+       | (st2, .ok (), ev2) =>
+         let (st3, r3, ev3) := receive st2
+         (st3, r3, ev0 ++ ev1 ++ ev2 ++ ev3)
+       | (st2, .err e, ev2) => (st2, .err e, ev0 ++ ev1 ++ ev2)
+       | (st2, .panic, ev2) => (st2, .panic, ev0 ++ ev1 ++ ev2)) =
+    ((connected cred st0 reqs sc).1, (connected cred st0 reqs sc).2.1, ev0 ++ (connected cred st0 reqs sc).2.2) := by
+  unfold connected userPhase
+  cases st0.authed
+  · simp only [Bool.false_eq_true, if_false]
+    rcases ha : authenticate cred st0 sc with ⟨st1, r1, ev1⟩
+    cases r1 with
+    | ok u =>
+      simp only []
+      rcases hs : sendFrame st1 reqs sc.writeOk sc.user with ⟨st2, r2, ev2⟩
+      cases r2 <;> simp
+    | err e => simp
+    | panic => simp
+  · simp only [if_true]
+    rcases hs : sendFrame st0 reqs sc.writeOk sc.user with ⟨st2, r2, ev2⟩
+    cases r2 <;> simp
+
+theorem sendMultiple_conn (cred : Cred) (p : Nat × List Tok) (a : Bool) (c : Nat) (reqs : List Msg) (sc : Script) :
+    sendMultiple cred ⟨some p, a, c⟩ reqs sc = connected cred ⟨some p, a, c⟩ reqs sc := by
+  have := sendMultiple_aux cred ⟨some p, a, c⟩ [] reqs sc
+  simp only [List.nil_append] at this
+  simp only [sendMultiple]
+  exact this
+
+theorem sendMultiple_dial_ok (cred : Cred) (a : Bool) (c : Nat) (reqs : List Msg) (sc : Script)
+    (hd : sc.dialOk = true) :
+    sendMultiple cred ⟨none, a, c⟩ reqs sc =
+      ((connected cred ⟨some (c, []), a, c + 1⟩ reqs sc).1,
+       (connected cred ⟨some (c, []), a, c + 1⟩ reqs sc).2.1,
+       .dial true :: (connected cred ⟨some (c, []), a, c + 1⟩ reqs sc).2.2) := by
+  have := sendMultiple_aux cred ⟨some (c, []), a, c + 1⟩ [.dial true] reqs sc
+  simp only [sendMultiple, hd]
+  exact this
+
+/-- all outcomes of the user phase on an open connection -/
+theorem userPhase_cases (n : Nat) (q : List Tok) (a : Bool) (c : Nat) (reqs : List Msg) (sc : Script) :
+    (∃ e, ValidationErr e ∧ validateRequests reqs = .err e ∧
+        userPhase ⟨some (n, q), a, c⟩ reqs sc = (⟨some (n, q), a, c⟩, .err e, [])) ∨
+    (validateRequests reqs = .panic ∧
+        userPhase ⟨some (n, q), a, c⟩ reqs sc = (⟨some (n, q), a, c⟩, .panic, [])) ∨
+    (sc.writeOk = false ∧
+        userPhase ⟨some (n, q), a, c⟩ reqs sc = (⟨none, false, c⟩, .err .io, [.closed n])) ∨
+    (∃ e, (∀ m ms rest, q ++ sc.user.tokens ≠ .frame (m :: ms) :: rest) ∧
+        userPhase ⟨some (n, q), a, c⟩ reqs sc = (⟨none, false, c⟩, .err e, [.sent n reqs, .closed n])) ∨
+    (∃ m ms rest, q ++ sc.user.tokens = .frame (m :: ms) :: rest ∧
+        validateRequests reqs = .ok () ∧ sc.writeOk = true ∧
+        userPhase ⟨some (n, q), a, c⟩ reqs sc = (⟨some (n, rest), a, c⟩, .ok (m :: ms), [.sent n reqs])) := by
+  rcases sendFrame_cases n q a c reqs sc.writeOk sc.user with
+    ⟨hv, hw, hs⟩ | ⟨hv, hw, hs⟩ | ⟨e, hv, hs⟩ | ⟨hv, hs⟩
+  · rcases receive_cases n (q ++ sc.user.tokens) a c with ⟨m, ms, rest, hq, hr⟩ | ⟨e, hq, hr⟩
+    · exact .inr (.inr (.inr (.inr ⟨m, ms, rest, hq, hv, hw, by simp [userPhase, hs, hr]⟩)))
+    · exact .inr (.inr (.inr (.inl ⟨e, hq, by simp [userPhase, hs, hr]⟩)))
+  · exact .inr (.inr (.inl ⟨hw, by simp [userPhase, hs]⟩))
+  · exact .inl ⟨e, validateRequests_err hv, hv, by simp [userPhase, hs]⟩
+  · exact .inr (.inl ⟨hv, by simp [userPhase, hs]⟩)
+
+/-- all outcomes of `sendMultiple` on an open connection `n` with pending tokens `q` -/
+theorem connected_cases (cred : Cred) (n : Nat) (q : List Tok) (a : Bool) (c : Nat) (reqs : List Msg) (sc : Script) :
+    -- authentication was needed and did not succeed
+    (a = false ∧ (
+      (∃ e, ValidationErr e ∧
+        connected cred ⟨some (n, q), a, c⟩ reqs sc = (⟨some (n, q), false, c⟩, .err e, [])) ∨
+      (connected cred ⟨some (n, q), a, c⟩ reqs sc = (⟨none, false, c⟩, .err .io, [.closed n])) ∨
+      (∃ e, connected cred ⟨some (n, q), a, c⟩ reqs sc =
+        (⟨none, false, c⟩, .err e, [.sent n (authRequest cred.user cred.password), .closed n])) ∨
+      (∃ m ms rest, q ++ sc.auth.tokens = .frame (m :: ms) :: rest ∧
+        connected cred ⟨some (n, q), a, c⟩ reqs sc =
+          (⟨some (n, rest), false, c⟩, .err .auth, [.sent n (authRequest cred.user cred.password)])))) ∨
+    -- authenticated before (`pre = []`) or now; the user phase runs on the queue `q1`
+    (∃ pre q1,
+      ((a = true ∧ pre = [] ∧ q1 = q) ∨
+       (a = false ∧ pre = [.sent n (authRequest cred.user cred.password), .granted n] ∧
+          ∃ m ms, q ++ sc.auth.tokens = .frame (m :: ms) :: q1)) ∧
+      ((∃ e, ValidationErr e ∧
+          connected cred ⟨some (n, q), a, c⟩ reqs sc = (⟨some (n, q1), true, c⟩, .err e, pre)) ∨
+       (validateRequests reqs = .panic ∧
+          connected cred ⟨some (n, q), a, c⟩ reqs sc = (⟨some (n, q1), true, c⟩, .panic, pre)) ∨
+       (connected cred ⟨some (n, q), a, c⟩ reqs sc = (⟨none, false, c⟩, .err .io, pre ++ [.closed n])) ∨
+       (∃ e, connected cred ⟨some (n, q), a, c⟩ reqs sc =
+          (⟨none, false, c⟩, .err e, pre ++ [.sent n reqs, .closed n])) ∨
+       (∃ m ms rest, q1 ++ sc.user.tokens = .frame (m :: ms) :: rest ∧
+          connected cred ⟨some (n, q), a, c⟩ reqs sc =
+            (⟨some (n, rest), true, c⟩, .ok (m :: ms), pre ++ [.sent n reqs])))) := by
+  cases a with
+  | true =>
+    refine .inr ⟨[], q, .inl ⟨rfl, rfl, rfl⟩, ?_⟩
+    simp only [connected, if_true, List.nil_append]
+    rcases userPhase_cases n q true c reqs sc with
+      ⟨e, he, _, hu⟩ | ⟨hp, hu⟩ | ⟨_, hu⟩ | ⟨e, _, hu⟩ | ⟨m, ms, rest, hq, _, _, hu⟩
+    · exact .inl ⟨e, he, hu⟩
+    · exact .inr (.inl ⟨hp, hu⟩)
+    · exact .inr (.inr (.inl hu))
+    · exact .inr (.inr (.inr (.inl ⟨e, hu⟩)))
+    · exact .inr (.inr (.inr (.inr ⟨m, ms, rest, hq, hu⟩)))
+  | false =>
+    rcases authenticate_cases cred sc n q false c with
+      ⟨e, he, _, ha⟩ | ⟨_, ha⟩ | ⟨e, _, ha⟩ | ⟨m, ms, rest, hq, _, ha⟩ | ⟨m, ms, q1, hq, _, _, _, ha⟩
+    · exact .inl ⟨rfl, .inl ⟨e, he, by simp [connected, ha]⟩⟩
+    · exact .inl ⟨rfl, .inr (.inl (by simp [connected, ha]))⟩
+    · exact .inl ⟨rfl, .inr (.inr (.inl ⟨e, by simp [connected, ha]⟩))⟩
+    · exact .inl ⟨rfl, .inr (.inr (.inr ⟨m, ms, rest, hq, by simp [connected, ha]⟩))⟩
+    · refine .inr ⟨_, q1, .inr ⟨rfl, rfl, m, ms, hq⟩, ?_⟩
+      simp only [connected, Bool.false_eq_true, if_false, ha]
+      rcases userPhase_cases n q1 true c reqs sc with
+        ⟨e, he, _, hu⟩ | ⟨hp, hu⟩ | ⟨_, hu⟩ | ⟨e, _, hu⟩ | ⟨m, ms, rest, hq, _, _, hu⟩
+      · exact .inl ⟨e, he, by simp [hu]⟩
+      · exact .inr (.inl ⟨hp, by simp [hu]⟩)
+      · exact .inr (.inr (.inl (by simp [hu])))
+      · exact .inr (.inr (.inr (.inl ⟨e, by simp [hu]⟩)))
+      · exact .inr (.inr (.inr (.inr ⟨m, ms, rest, hq, by simp [hu]⟩)))
+
+/-- `sendMultiple` from any state: the dial fails, or the rest runs on a connection `n` (the open one, or
+    a fresh one numbered `st.conns`) -/
+theorem sendMultiple_cases (cred : Cred) (st : CState) (reqs : List Msg) (sc : Script) :
+    (st.conn = none ∧ sc.dialOk = false ∧ sendMultiple cred st reqs sc = (st, .err .io, [.dial false])) ∨
+    (∃ n q c' pre,
+      ((st.conn = some (n, q) ∧ pre = [] ∧ c' = st.conns) ∨
+       (st.conn = none ∧ sc.dialOk = true ∧ n = st.conns ∧ q = [] ∧ pre = [.dial true] ∧ c' = st.conns + 1)) ∧
+      sendMultiple cred st reqs sc =
+        ((connected cred ⟨some (n, q), st.authed, c'⟩ reqs sc).1,
+         (connected cred ⟨some (n, q), st.authed, c'⟩ reqs sc).2.1,
+         pre ++ (connected cred ⟨some (n, q), st.authed, c'⟩ reqs sc).2.2)) := by
+  obtain ⟨conn, a, c⟩ := st
+  cases conn with
+  | some p =>
+    obtain ⟨n, q⟩ := p
+    exact .inr ⟨n, q, c, [], .inl ⟨rfl, rfl, rfl⟩, by simp [sendMultiple_conn]⟩
+  | none =>
+    cases hd : sc.dialOk with
+    | false => exact .inl ⟨rfl, rfl, sendMultiple_dial_fail cred a c reqs sc hd⟩
+    | true =>
+      exact .inr ⟨c, [], c + 1, [.dial true], .inr ⟨rfl, rfl, rfl, rfl, rfl, rfl⟩,
+        by simp [sendMultiple_dial_ok cred a c reqs sc hd]⟩
+
+theorem connected_clean (cred : Cred) (n : Nat) (a : Bool) (c : Nat) (reqs : List Msg) (sc : Script)
+    (n' : Nat) (q' : List Tok)
+    (h : (connected cred ⟨some (n, []), a, c⟩ reqs sc).1.conn = some (n', q')) : q' = [] := by
+  rcases connected_cases cred n [] a c reqs sc with
+    ⟨_, ⟨e, he, hR⟩ | hR | ⟨e, hR⟩ | ⟨m, ms, rest, hq, hR⟩⟩ |
+    ⟨pre, q1, hpre, hu⟩
+  · simp [hR] at h; exact h.2
+  · simp [hR] at h
+  · simp [hR] at h
+  · simp [hR] at h; rw [← h.2]; exact (tokens_frame (by simpa using hq)).2
+  · have hq1 : q1 = [] := by
+      rcases hpre with ⟨_, _, rfl⟩ | ⟨_, _, m', ms', hq'⟩
+      · rfl
+      · exact (tokens_frame (by simpa using hq')).2
+    subst hq1
+    rcases hu with ⟨e, he, hR⟩ | ⟨hp, hR⟩ | hR | ⟨e, hR⟩ | ⟨m, ms, rest, hq, hR⟩
+    · simp [hR] at h; exact h.2
+    · simp [hR] at h; exact h.2
+    · simp [hR] at h
+    · simp [hR] at h
+    · simp [hR] at h; rw [← h.2]; exact (tokens_frame (by simpa using hq)).2
+
+theorem sendMultiple_clean (cred : Cred) (st : CState) (reqs : List Msg) (sc : Script)
+    (h : ∀ n q, st.conn = some (n, q) → q = []) (n' : Nat) (q' : List Tok)
+    (h' : (sendMultiple cred st reqs sc).1.conn = some (n', q')) : q' = [] := by
+  rcases sendMultiple_cases cred st reqs sc with ⟨hc, _, hR⟩ | ⟨n, q, c', pre, hpre, hR⟩
+  · rw [hR] at h'; simp [hc] at h'
+  · have hq : q = [] := by
+      rcases hpre with ⟨hc, _, _⟩ | ⟨_, _, _, hq, _, _⟩
+      · exact h n q hc
+      · exact hq
+    subst hq
+    rw [hR] at h'
+    exact connected_clean cred n st.authed c' reqs sc n' q' h'
+
+/-! ## C08: pairing, order, failure, recovery -/
+
+theorem connected_pairing (cred : Cred) (n : Nat) (a : Bool) (c : Nat) (reqs ms : List Msg) (sc : Script)
+    (hok : (connected cred ⟨some (n, []), a, c⟩ reqs sc).2.1 = .ok ms) : sc.user = .frame ms := by
+  rcases connected_cases cred n [] a c reqs sc with
+    ⟨_, ⟨e, he, hR⟩ | hR | ⟨e, hR⟩ | ⟨m, ms, rest, hq, hR⟩⟩ |
+    ⟨pre, q1, hpre, hu⟩
+  · simp [hR] at hok
+  · simp [hR] at hok
+  · simp [hR] at hok
+  · simp [hR] at hok
+  · have hq1 : q1 = [] := by
+      rcases hpre with ⟨_, _, rfl⟩ | ⟨_, _, m', ms', hq'⟩
+      · rfl
+      · exact (tokens_frame (by simpa using hq')).2
+    subst hq1
+    rcases hu with ⟨e, he, hR⟩ | ⟨hp, hR⟩ | hR | ⟨e, hR⟩ | ⟨m, ms', rest, hq, hR⟩
+    · simp [hR] at hok
+    · simp [hR] at hok
+    · simp [hR] at hok
+    · simp [hR] at hok
+    · simp [hR] at hok; rw [← hok]; exact (tokens_frame (by simpa using hq)).1
+
+theorem sendMultiple_pairing (cred : Cred) (st : CState) (reqs ms : List Msg) (sc : Script)
+    (h : ∀ n q, st.conn = some (n, q) → q = [])
+    (hok : (sendMultiple cred st reqs sc).2.1 = .ok ms) : sc.user = .frame ms := by
+  rcases sendMultiple_cases cred st reqs sc with ⟨hc, _, hR⟩ | ⟨n, q, c', pre, hpre, hR⟩
+  · simp [hR] at hok
+  · have hq : q = [] := by
+      rcases hpre with ⟨hc, _, _⟩ | ⟨_, _, _, hq, _, _⟩
+      · exact h n q hc
+      · exact hq
+    subst hq
+    rw [hR] at hok
+    exact connected_pairing cred n st.authed c' reqs ms sc hok
+
+/-- the frames among a list of events -/
+def sentFrames (evs : List Ev) : List (List Msg) :=
+  evs.filterMap (fun e => match e with | .sent _ ms => some ms | _ => none)
+
+theorem connected_sent (cred : Cred) (n : Nat) (q : List Tok) (a : Bool) (c : Nat) (reqs : List Msg) (sc : Script) :
+    let sent := sentFrames (connected cred ⟨some (n, q), a, c⟩ reqs sc).2.2
+    sent = [] ∨ sent = [authRequest cred.user cred.password] ∨ sent = [reqs] ∨
+      sent = [authRequest cred.user cred.password, reqs] := by
+  rcases connected_cases cred n q a c reqs sc with
+    ⟨_, ⟨e, he, hR⟩ | hR | ⟨e, hR⟩ | ⟨m, ms, rest, hq, hR⟩⟩ |
+    ⟨pre, q1, hpre, hu⟩
+  · simp [hR, sentFrames]
+  · simp [hR, sentFrames]
+  · simp [hR, sentFrames]
+  · simp [hR, sentFrames]
+  · rcases hpre with ⟨_, rfl, _⟩ | ⟨_, rfl, _⟩ <;>
+    rcases hu with ⟨e, he, hR⟩ | ⟨hp, hR⟩ | hR | ⟨e, hR⟩ | ⟨m, ms', rest, hq, hR⟩ <;>
+    simp [hR, sentFrames]
+
+theorem sendMultiple_sent (cred : Cred) (st : CState) (reqs : List Msg) (sc : Script) :
+    let sent := sentFrames (sendMultiple cred st reqs sc).2.2
+    sent = [] ∨ sent = [authRequest cred.user cred.password] ∨ sent = [reqs] ∨
+      sent = [authRequest cred.user cred.password, reqs] := by
+  rcases sendMultiple_cases cred st reqs sc with ⟨hc, _, hR⟩ | ⟨n, q, c', pre, hpre, hR⟩
+  · simp [hR, sentFrames]
+  · have hpre' : sentFrames pre = [] := by
+      rcases hpre with ⟨_, rfl, _⟩ | ⟨_, _, _, _, rfl, _⟩ <;> simp [sentFrames]
+    have := connected_sent cred n q st.authed c' reqs sc
+    simp only [hR]
+    unfold sentFrames at *
+    simpa [List.filterMap_append, hpre'] using this
+
+theorem connected_failure (cred : Cred) (n : Nat) (q : List Tok) (a : Bool) (c : Nat) (reqs : List Msg) (sc : Script)
+    (e : ErrClass) (hres : (connected cred ⟨some (n, q), a, c⟩ reqs sc).2.1 = .err e)
+    (hnot : e ≠ .auth ∧ ¬ ValidationErr e) :
+    (connected cred ⟨some (n, q), a, c⟩ reqs sc).1.conn = none ∧
+      (connected cred ⟨some (n, q), a, c⟩ reqs sc).1.authed = false := by
+  rcases connected_cases cred n q a c reqs sc with
+    ⟨_, ⟨e', he, hR⟩ | hR | ⟨e', hR⟩ | ⟨m, ms, rest, hq, hR⟩⟩ |
+    ⟨pre, q1, hpre, ⟨e', he, hR⟩ | ⟨hp, hR⟩ | hR | ⟨e', hR⟩ | ⟨m, ms', rest, hq, hR⟩⟩
+  · simp [hR] at hres; subst hres; exact absurd he hnot.2
+  · simp [hR]
+  · simp [hR]
+  · simp [hR] at hres; exact absurd hres.symm hnot.1
+  · simp [hR] at hres; subst hres; exact absurd he hnot.2
+  · simp [hR] at hres
+  · simp [hR]
+  · simp [hR]
+  · simp [hR] at hres
+
+theorem sendMultiple_failure (cred : Cred) (st : CState) (reqs : List Msg) (sc : Script) (e : ErrClass)
+    (hinv : st.conn = none → st.authed = false)
+    (hres : (sendMultiple cred st reqs sc).2.1 = .err e)
+    (hnot : e ≠ .auth ∧ ¬ ValidationErr e) :
+    (sendMultiple cred st reqs sc).1.conn = none ∧ (sendMultiple cred st reqs sc).1.authed = false := by
+  rcases sendMultiple_cases cred st reqs sc with ⟨hc, _, hR⟩ | ⟨n, q, c', pre, hpre, hR⟩
+  · rw [hR]; exact ⟨hc, hinv hc⟩
+  · rw [hR] at hres ⊢
+    exact connected_failure cred n q st.authed c' reqs sc e hres hnot
+
+theorem userPhase_ok (n : Nat) (a : Bool) (c : Nat) (reqs : List Msg) (sc : Script) (m : Msg) (ms : List Msg)
+    (hv : validateRequests reqs = .ok ()) (hw : sc.writeOk = true) (hu : sc.user = .frame (m :: ms)) :
+    userPhase ⟨some (n, []), a, c⟩ reqs sc = (⟨some (n, []), a, c⟩, .ok (m :: ms), [.sent n reqs]) := by
+  simp [userPhase, sendFrame, hv, hw, hu, Reply.tokens, receive]
+
+theorem authenticate_ok (cred : Cred) (n : Nat) (a : Bool) (c : Nat) (sc : Script) (lvl : Int)
+    (hcred : validateRequests (authRequest cred.user cred.password) = .ok ())
+    (hw : sc.writeOk = true) (hl : lvl ≠ 0)
+    (ha : sc.auth = .frame [.mk tagAuth Gen.C.UChar8 (.num .u8 lvl)]) :
+    authenticate cred ⟨some (n, []), a, c⟩ sc =
+      (⟨some (n, []), true, c⟩, .ok (), [.sent n (authRequest cred.user cred.password), .granted n]) := by
+  have hg : authVerdict [.mk tagAuth Gen.C.UChar8 (.num .u8 lvl)] = .ok .grant :=
+    (authVerdict_grant_iff _ _).2 ⟨rfl, lvl, hl, .inl rfl⟩
+  simp [authenticate, sendFrame, hcred, hw, ha, Reply.tokens, receive, hg]
+
+theorem sendMultiple_recovery (cred : Cred) (st : CState) (reqs : List Msg) (sc : Script) (m : Msg) (ms : List Msg)
+    (lvl : Int)
+    (h : ∀ n q, st.conn = some (n, q) → q = [])
+    (hcred : validateRequests (authRequest cred.user cred.password) = .ok ())
+    (hv : validateRequests reqs = .ok ())
+    (hd : sc.dialOk = true) (hw : sc.writeOk = true) (hu : sc.user = .frame (m :: ms)) (hl : lvl ≠ 0)
+    (ha : sc.auth = .frame [.mk tagAuth Gen.C.UChar8 (.num .u8 lvl)]) :
+    (sendMultiple cred st reqs sc).2.1 = .ok (m :: ms) := by
+  rcases sendMultiple_cases cred st reqs sc with ⟨_, hd', _⟩ | ⟨n, q, c', pre, hpre, hR⟩
+  · simp [hd] at hd'
+  · have hq : q = [] := by
+      rcases hpre with ⟨hc, _, _⟩ | ⟨_, _, _, hq, _, _⟩
+      · exact h n q hc
+      · exact hq
+    subst hq
+    rw [hR]
+    cases hA : st.authed with
+    | true => simp [connected, userPhase_ok n true c' reqs sc m ms hv hw hu]
+    | false =>
+      simp [connected, authenticate_ok cred n false c' sc lvl hcred hw hl ha,
+        userPhase_ok n true c' reqs sc m ms hv hw hu]
+
+/-! ## C09: calls never panic -/
+
+theorem receive_ok_ne_nil (st : CState) (ms : List Msg) (h : (receive st).2.1 = .ok ms) : ms ≠ [] := by
+  obtain ⟨conn, a, c⟩ := st
+  cases conn with
+  | none => simp [receive_none] at h
+  | some p =>
+    obtain ⟨n, q⟩ := p
+    rcases receive_cases n q a c with ⟨m, ms', rest, _, hr⟩ | ⟨e, _, hr⟩
+    · simp [hr] at h; simp [← h]
+    · simp [hr] at h
+
+/-- the requests of a call are Go values as far as the validator looks at them -/
+def Call.GoVals : Call → Prop
+  | .sendMultiple reqs _ => GoMsgs reqs
+  | .send req _ => GoMsg req
+  | .disconnect => True
+
+theorem connected_result (cred : Cred) (n : Nat) (q : List Tok) (a : Bool) (c : Nat) (reqs : List Msg) (sc : Script) :
+    (∃ e, (connected cred ⟨some (n, q), a, c⟩ reqs sc).2.1 = .err e) ∨
+    (∃ m ms, (connected cred ⟨some (n, q), a, c⟩ reqs sc).2.1 = .ok (m :: ms)) ∨
+    (validateRequests reqs = .panic ∧ (connected cred ⟨some (n, q), a, c⟩ reqs sc).2.1 = .panic) := by
+  rcases connected_cases cred n q a c reqs sc with
+    ⟨_, ⟨e', he, hR⟩ | hR | ⟨e', hR⟩ | ⟨m, ms, rest, hq, hR⟩⟩ |
+    ⟨pre, q1, hpre, ⟨e', he, hR⟩ | ⟨hp, hR⟩ | hR | ⟨e', hR⟩ | ⟨m, ms', rest, hq, hR⟩⟩ <;>
+  simp [hR]
+  exact hp
+
+theorem sendMultiple_result (cred : Cred) (st : CState) (reqs : List Msg) (sc : Script) :
+    (∃ e, (sendMultiple cred st reqs sc).2.1 = .err e) ∨
+    (∃ m ms, (sendMultiple cred st reqs sc).2.1 = .ok (m :: ms)) ∨
+    (validateRequests reqs = .panic ∧ (sendMultiple cred st reqs sc).2.1 = .panic) := by
+  rcases sendMultiple_cases cred st reqs sc with ⟨hc, _, hR⟩ | ⟨n, q, c', pre, hpre, hR⟩
+  · simp [hR]
+  · rw [hR]; exact connected_result cred n q st.authed c' reqs sc
+
+theorem step_ne_panic (cred : Cred) (st : CState) (c : Call) (hgo : c.GoVals) :
+    (step cred st c).2.1 ≠ .panic := by
+  cases c with
+  | sendMultiple reqs sc =>
+    rcases sendMultiple_result cred st reqs sc with ⟨e, h⟩ | ⟨m, ms, h⟩ | ⟨hp, _⟩
+    · simp [step, h]
+    · simp [step, h]
+    · exact absurd hp (validateRequests_ne_panic hgo)
+  | send req sc =>
+    have hgo' : GoMsgs [req] := ⟨hgo, trivial⟩
+    rcases hs : sendMultiple cred st [req] sc with ⟨st', r, ev⟩
+    rcases sendMultiple_result cred st [req] sc with ⟨e, h⟩ | ⟨m, ms, h⟩ | ⟨hp, _⟩
+    · rw [hs] at h; simp at h; subst h; simp [step, send, hs]
+    · rw [hs] at h; simp at h; subst h; simp [step, send, hs]
+    · exact absurd hp (validateRequests_ne_panic hgo')
+  | disconnect => simp [step]
+
+/-! ## C09: traces -/
+
+/-- a frame `ms` may go out on connection `n` after the events `seen`: it is the authentication request
+    `A`, or `A` was sent and its reply accepted on `n` before -/
+def SentOK (A : List Msg) (seen : List Ev) : Ev → Prop
+  | .sent n ms => ms = A ∨ (.sent n A ∈ seen ∧ .granted n ∈ seen)
+  | _ => True
+
+/-- every event of `l` is `SentOK` after `seen` and the events of `l` before it -/
+def GoodFrom (A : List Msg) : List Ev → List Ev → Prop
+  | _, [] => True
+  | seen, e :: l => SentOK A seen e ∧ GoodFrom A (seen ++ [e]) l
+
+theorem goodFrom_append (A : List Msg) : ∀ (l1 l2 seen : List Ev),
+    GoodFrom A seen (l1 ++ l2) ↔ GoodFrom A seen l1 ∧ GoodFrom A (seen ++ l1) l2
+  | [], l2, seen => by simp [GoodFrom]
+  | e :: l1, l2, seen => by
+    simp only [List.cons_append, GoodFrom, goodFrom_append A l1 l2 (seen ++ [e]), and_assoc,
+      List.append_assoc, List.nil_append]
+
+/-- the state part of the trace invariant: no connection, no authentication; and an authenticated
+    connection has seen the authentication request and its acceptance -/
+def AuthInv (A : List Msg) (st : CState) (l : List Ev) : Prop :=
+  (st.conn = none → st.authed = false) ∧
+  (∀ n q, st.conn = some (n, q) → st.authed = true → .sent n A ∈ l ∧ .granted n ∈ l)
+
+theorem connected_trace (cred : Cred) (n : Nat) (q : List Tok) (a : Bool) (c : Nat) (reqs : List Msg) (sc : Script)
+    (l : List Ev)
+    (ha : a = true → .sent n (authRequest cred.user cred.password) ∈ l ∧ .granted n ∈ l) :
+    GoodFrom (authRequest cred.user cred.password) l (connected cred ⟨some (n, q), a, c⟩ reqs sc).2.2 ∧
+    AuthInv (authRequest cred.user cred.password) (connected cred ⟨some (n, q), a, c⟩ reqs sc).1
+      (l ++ (connected cred ⟨some (n, q), a, c⟩ reqs sc).2.2) := by
+  rcases connected_cases cred n q a c reqs sc with
+    ⟨_, ⟨e', he, hR⟩ | hR | ⟨e', hR⟩ | ⟨m, ms, rest, hq, hR⟩⟩ |
+    ⟨pre, q1, hpre, hu⟩
+  · simp [hR, GoodFrom, AuthInv]
+  · simp [hR, GoodFrom, AuthInv, SentOK]
+  · simp [hR, GoodFrom, AuthInv, SentOK]
+  · simp [hR, GoodFrom, AuthInv, SentOK]
+  · rcases hpre with ⟨ha', rfl, _⟩ | ⟨_, rfl, _⟩
+    · obtain ⟨h1, h2⟩ := ha ha'
+      rcases hu with ⟨e', he, hR⟩ | ⟨hp, hR⟩ | hR | ⟨e', hR⟩ | ⟨m, ms', rest, hq, hR⟩ <;>
+      simp [hR, GoodFrom, AuthInv, SentOK, h1, h2]
+    · rcases hu with ⟨e', he, hR⟩ | ⟨hp, hR⟩ | hR | ⟨e', hR⟩ | ⟨m, ms', rest, hq, hR⟩ <;>
+      simp [hR, GoodFrom, AuthInv, SentOK]
+
+theorem authInv_mono {A : List Msg} {st : CState} {l : List Ev} (h : AuthInv A st l) (ev : List Ev) :
+    AuthInv A st (l ++ ev) :=
+  ⟨h.1, fun n q hc ha => ⟨List.mem_append_left _ (h.2 n q hc ha).1, List.mem_append_left _ (h.2 n q hc ha).2⟩⟩
+
+theorem sendMultiple_trace (cred : Cred) (st : CState) (reqs : List Msg) (sc : Script) (l : List Ev)
+    (h : AuthInv (authRequest cred.user cred.password) st l) :
+    GoodFrom (authRequest cred.user cred.password) l (sendMultiple cred st reqs sc).2.2 ∧
+    AuthInv (authRequest cred.user cred.password) (sendMultiple cred st reqs sc).1
+      (l ++ (sendMultiple cred st reqs sc).2.2) := by
+  rcases sendMultiple_cases cred st reqs sc with ⟨hc, _, hR⟩ | ⟨n, q, c', pre, hpre, hR⟩
+  · rw [hR]; exact ⟨by simp [GoodFrom, SentOK], authInv_mono h _⟩
+  · rw [hR]
+    rcases hpre with ⟨hc, rfl, _⟩ | ⟨hc, _, _, _, rfl, _⟩
+    · have := connected_trace cred n q st.authed c' reqs sc l (h.2 n q hc)
+      simpa using this
+    · have := connected_trace cred n q st.authed c' reqs sc (l ++ [.dial true])
+        (fun ha => by simp [h.1 hc] at ha)
+      simpa [goodFrom_append, GoodFrom, SentOK] using this
+
+theorem send_state_events (cred : Cred) (st : CState) (req : Msg) (sc : Script) :
+    (send cred st req sc).1 = (sendMultiple cred st [req] sc).1 ∧
+    (send cred st req sc).2.2 = (sendMultiple cred st [req] sc).2.2 := by
+  rcases hs : sendMultiple cred st [req] sc with ⟨st', r, ev⟩
+  cases r with
+  | ok l => cases l <;> simp [send, hs]
+  | err e => simp [send, hs]
+  | panic => simp [send, hs]
+
+theorem step_send_state_events (cred : Cred) (st : CState) (req : Msg) (sc : Script) :
+    (step cred st (.send req sc)).1 = (sendMultiple cred st [req] sc).1 ∧
+    (step cred st (.send req sc)).2.2 = (sendMultiple cred st [req] sc).2.2 := by
+  rw [← (send_state_events cred st req sc).1, ← (send_state_events cred st req sc).2]
+  rcases hs : send cred st req sc with ⟨st', r, ev⟩
+  cases r <;> simp [step, hs]
+
+theorem step_trace (cred : Cred) (st : CState) (c : Call) (l : List Ev)
+    (h : AuthInv (authRequest cred.user cred.password) st l) :
+    GoodFrom (authRequest cred.user cred.password) l (step cred st c).2.2 ∧
+    AuthInv (authRequest cred.user cred.password) (step cred st c).1 (l ++ (step cred st c).2.2) := by
+  cases c with
+  | sendMultiple reqs sc => exact sendMultiple_trace cred st reqs sc l h
+  | send req sc =>
+    rw [(step_send_state_events cred st req sc).1, (step_send_state_events cred st req sc).2]
+    exact sendMultiple_trace cred st [req] sc l h
+  | disconnect =>
+    obtain ⟨conn, a, c⟩ := st
+    cases conn with
+    | none => simp [step, disconnect_none, GoodFrom, AuthInv]
+    | some p =>
+      obtain ⟨n, q⟩ := p
+      simp [step, disconnect_some, GoodFrom, AuthInv, SentOK]
+
+theorem runCalls_trace (cred : Cred) : ∀ (cs : List Call) (st : CState) (l : List Ev),
+    AuthInv (authRequest cred.user cred.password) st l →
+    GoodFrom (authRequest cred.user cred.password) l (((runCalls cred st cs).map (·.2)).flatten)
+  | [], _, _, _ => by simp [runCalls, GoodFrom]
+  | c :: cs, st, l, h => by
+    obtain ⟨h1, h2⟩ := step_trace cred st c l h
+    have ih := runCalls_trace cred cs (step cred st c).1 _ h2
+    simp only [runCalls, List.map_cons, List.flatten_cons, goodFrom_append]
+    exact ⟨h1, ih⟩
+
+theorem authInv_init (A : List Msg) : AuthInv A {} [] := by simp [AuthInv]
+
+/-- reading the trace property off at one position -/
+theorem goodFrom_at {A : List Msg} {pre post : List Ev} {n : Nat} {ms : List Msg}
+    (h : GoodFrom A [] (pre ++ .sent n ms :: post)) :
+    ms = A ∨ (.sent n A ∈ pre ∧ .granted n ∈ pre) := by
+  rw [goodFrom_append] at h
+  simpa [GoodFrom, SentOK] using h.2.1
+
+/-! ## C08: cleanliness of every call -/
+
+theorem step_clean (cred : Cred) (st : CState) (c : Call) (h : ∀ n q, st.conn = some (n, q) → q = [])
+    (n' : Nat) (q' : List Tok) (h' : (step cred st c).1.conn = some (n', q')) : q' = [] := by
+  cases c with
+  | sendMultiple reqs sc => exact sendMultiple_clean cred st reqs sc h n' q' h'
+  | send req sc =>
+    rw [(step_send_state_events cred st req sc).1] at h'
+    exact sendMultiple_clean cred st [req] sc h n' q' h'
+  | disconnect =>
+    obtain ⟨conn, a, c⟩ := st
+    cases conn with
+    | none => simp [step, disconnect_none] at h'
+    | some p => obtain ⟨n, q⟩ := p; simp [step, disconnect_some] at h'
+
+theorem disconnect_conn_authed (st : CState) : (disconnect st).1.conn = none ∧ (disconnect st).1.authed = false := by
+  obtain ⟨conn, a, c⟩ := st
+  cases conn with
+  | none => simp [disconnect_none]
+  | some p => obtain ⟨n, q⟩ := p; simp [disconnect_some]
+
+/-! ## non-vacuity of the hypotheses the property theorems add -/
+
+-- `hcred` of `C08.recovery`: short credentials give a valid authentication request
+example : validateRequests (authRequest [1, 2, 3] [4, 5]) = .ok () := by
+  rw [validateRequests_authRequest]; simp
+
+-- `hgo` of `C09.no_panic`: an ordinary request is a Go value
+example : Call.GoVals (.sendMultiple [.mk 1 14 (.msgs [.mk 2 13 (.str []), .mk 3 3 (.num .u8 1)])] {}) := by
+  simp [Call.GoVals, GoMsgs, GoMsg, GoVal, Kind.width]
+
+-- the junk value that makes the unguarded `no_panic` false
+example : validateRequests [.mk 1 14 (.num .msgs 0)] = .panic := by rfl
+
+end Rscp.Model
